@@ -255,7 +255,7 @@ CLAIMED["C03"] = {
     "text": "BOUNDED only (labelled; nothing here is counted as proved): the property quantifies over source texts through the pest-generated parser and an external MILP search; every in-repo step that can carry a contract is covered under C01 / C02 / C04 / C05, "
             "and no further function exists to attach an obligation to. The statement is executed instead: 220 generated models (two integers in [0,3] and [-2,2], two Booleans; 1 to 4 constraints over + - * abs min max neg and not / and / or / implies / iff / xor, nesting <= 2; "
             "min or max objective) are rendered as text, solved through RoocSolver::solve_using(auto_solver), and compared with a brute-force search over all 80 assignments using an independent evaluator: a solution exactly when a satisfying assignment exists, "
-            "feasible, with the right objective value, and optimal; otherwise the infeasible verdict. One genuine defect was found this way and repaired (fix: 0f3a8ac): the lowering relied on inferred ranges (a Boolean narrowed to one value, an integer interval without an integral point) "
+            "feasible, with the right objective value, and optimal; otherwise the infeasible verdict. A second family of 160 models over two continuous variables checks the returned point the same way and uses a 13 x 9 grid of robustly feasible candidates as a one-sided test of optimality and of the infeasible verdict. One genuine defect was found this way and repaired (fix: 0f3a8ac): the lowering relied on inferred ranges (a Boolean narrowed to one value, an integer interval without an integral point) "
             "that the linear model does not enforce, so an infeasible model could come back with a solution.",
     "note": "Bound: the generator in units/U03.e2e/witness.rs, seeded by VERIF_SEED; vacuity guard: at least 60 solved and 5 infeasible models. Trusted: the independent evaluator's reading of the language semantics (the one of spec/semantics.rs).",
     "technique": "bounded executable check of the one-shot entry point against brute force over all assignments (stand-in where no contract can reach; labelled bounded)",
